@@ -111,7 +111,6 @@ Variable F : Type.
 Variables (zero one : F) (add mul sub : F -> F -> F) (opp : F -> F) (div : F -> F -> F) (inv : F -> F).
 Variable Fth : field_theory zero one add mul sub opp div inv (@eq F).
 Add Field Ffield : Fth.
-Variable tiny : F -> bool.
 
 Notation "0" := zero.
 Notation "1" := one.
@@ -122,7 +121,7 @@ Notation axpy := (axpy F add mul).
 Notation vscale := (vscale F mul).
 Notation vsub := (vsub F sub).
 Notation inner := (inner F zero add mul).
-Notation norm2sq := (norm2sq F zero add mul tiny).
+Notation norm2sq := (norm2sq F zero add mul).
 Notation sumF := (sumf F zero add).
 Notation zeros n := (repeat zero n).
 
@@ -217,13 +216,13 @@ Proof.
   simpl. f_equal. apply IH. lia.
 Qed.
 
-(* the 2-norm with the zero_tol guard, as a sum *)
-Definition gsq (x : F) : F := if tiny x then 0 else x * x.
+(* the 2-norm squared as a sum *)
+Definition gsq (x : F) : F := x * x.
 Lemma norm2sq_sumf v : norm2sq v = sumF (map gsq v).
 Proof.
   unfold KDefs.norm2sq.
-  assert (G : forall a, fold_left (fun acc x => if tiny x then acc else acc + x * x) v a = a + sumF (map gsq v)).
-  { induction v as [|x v IH]; intros a; simpl; [ring|]. rewrite IH. unfold gsq. destruct (tiny x); ring. }
+  assert (G : forall a, fold_left (fun acc x => acc + x * x) v a = a + sumF (map gsq v)).
+  { induction v as [|x v IH]; intros a; simpl; [ring|]. rewrite IH. unfold gsq. ring. }
   rewrite G. ring.
 Qed.
 Lemma norm2sq_app u v : norm2sq (u ++ v) = norm2sq u + norm2sq v.
@@ -231,18 +230,17 @@ Proof. rewrite !norm2sq_sumf, map_app. induction (map gsq u) as [|a l IH]; simpl
 Lemma norm2sq_nil : norm2sq [] = 0.
 Proof. reflexivity. Qed.
 Lemma norm2sq_zeros n : norm2sq (zeros n) = 0.
-Proof. rewrite norm2sq_sumf. induction n as [|n IH]; simpl; [reflexivity|]. rewrite IH. unfold gsq. destruct (tiny 0); ring. Qed.
-(* without entries in the guard's window the guarded norm is the 2-norm *)
-Lemma norm2sq_exact v : (forall a, In a v -> tiny a = true -> a = 0) -> norm2sq v = inner v v.
+Proof. rewrite norm2sq_sumf. induction n as [|n IH]; simpl; [reflexivity|]. rewrite IH. unfold gsq. ring. Qed.
+(* Vector::norm(2)^2 is the inner product of the vector with itself *)
+Lemma norm2sq_inner v : norm2sq v = inner v v.
 Proof.
-  intros H. rewrite norm2sq_sumf. induction v as [|a v IH]; [reflexivity|].
-  rewrite inner_cons. simpl. rewrite IH by (intros; apply H; [right|]; assumption).
-  unfold gsq. destruct (tiny a) eqn:E; [|reflexivity]. rewrite (H a (or_introl eq_refl) E). ring.
+  rewrite norm2sq_sumf. induction v as [|a v IH]; [reflexivity|].
+  rewrite inner_cons. simpl. rewrite IH. unfold gsq. reflexivity.
 Qed.
 
 (* ---- distributed kernels = kernels on the assembled vector ---- *)
 Notation dinner := (dinner F zero add mul).
-Notation dnorm2sq := (dnorm2sq F zero add mul tiny).
+Notation dnorm2sq := (dnorm2sq F zero add mul).
 Notation daxpy := (daxpy F add mul).
 Notation dscale := (dscale F mul).
 Definition psum (parts : list nat) : nat := fold_right Nat.add O parts.
@@ -386,7 +384,6 @@ Variable F : Type.
 Variables (zero one : F) (add mul sub : F -> F -> F) (opp : F -> F) (div : F -> F -> F) (inv : F -> F).
 Variable Fth : field_theory zero one add mul sub opp div inv (@eq F).
 Add Field Ffield2 : Fth.
-Variable tiny : F -> bool.
 Variables (eqb ltb : F -> F -> bool).
 Hypothesis eqb_spec : forall a c, eqb a c = true <-> a = c.
 
@@ -400,10 +397,10 @@ Notation axpy := (axpy F add mul).
 Notation vscale := (vscale F mul).
 Notation vsub := (vsub F sub).
 Notation inner := (inner F zero add mul).
-Notation norm2sq := (norm2sq F zero add mul tiny).
+Notation norm2sq := (norm2sq F zero add mul).
 Notation zeros n := (repeat zero n).
 Notation fdiv := (fdiv F zero div eqb).
-Notation sops := (seq_ops F zero add mul tiny).
+Notation sops := (seq_ops F zero add mul).
 
 Variable n : nat.
 Variable mulA : list F -> list F.
@@ -792,7 +789,7 @@ Proof.
   rewrite (norm2sq_sumf F zero one add mul sub opp div inv Fth).
   induction v as [|a v IH]; simpl; [apply le_refl|].
   apply (add_nonneg F zero one add mul sub opp div inv Fth le le_trans le_add); [|exact IH].
-  unfold gsq. destruct (tiny a); [apply le_refl|apply (sq_nonneg F zero one add mul sub opp div inv Fth le le_total le_add le_mul)].
+  unfold gsq. apply (sq_nonneg F zero one add mul sub opp div inv Fth le le_total le_add le_mul).
 Qed.
 
 Theorem bi_exact_start seqform max_iter x0 : length x0 = n -> mulA x0 = b ->
@@ -946,16 +943,16 @@ Qed.
 (* ======== distributed solvers = sequential solvers, for every partition ======== *)
 Variable parts : list nat.
 Hypothesis Hparts : psum parts = n.
-Notation dops := (dist_ops F zero add mul tiny parts).
+Notation dops := (dist_ops F zero add mul parts).
 Notation dinner := (KDefs.dinner F zero add mul parts).
-Notation dnorm2sq := (KDefs.dnorm2sq F zero add mul tiny parts).
+Notation dnorm2sq := (KDefs.dnorm2sq F zero add mul parts).
 Notation daxpy := (KDefs.daxpy F add mul parts).
 Notation dscale := (KDefs.dscale F mul parts).
 
 Lemma dI u v : length u = n -> length v = n -> dinner u v = inner u v.
 Proof. intros; apply (dinner_assembled F zero one add mul sub opp div inv Fth); congruence. Qed.
 Lemma dN v : length v = n -> dnorm2sq v = norm2sq v.
-Proof. intros; apply (dnorm2sq_assembled F zero one add mul sub opp div inv Fth tiny); congruence. Qed.
+Proof. intros; apply (dnorm2sq_assembled F zero one add mul sub opp div inv Fth); congruence. Qed.
 Lemma dA y x a : length y = n -> length x = n -> daxpy y x a = axpy y x a.
 Proof. intros; apply daxpy_assembled; congruence. Qed.
 Lemma dS y a : length y = n -> dscale y a = vscale y a.
@@ -1145,6 +1142,18 @@ Proof using Fth eqb_spec Hb mulA_len mulA_lin residA_spec prec_len.
     apply (Hpre j sj H1). intros i Hi. apply Hall. lia.
 Qed.
 
+(* what the distributed CG reports: norm_r / b_norm with b_norm the 2-norm of the assembled b (1 when below zero_tol) *)
+Theorem par_cg_reported_true (bb : list F) (zt2 : F) hist k :
+  length bb = n -> ltb (norm2sq bb) zt2 = false -> norm2sq bb <> 0 -> (k < length hist)%nat ->
+  nth k (par_cg_reported F zero one add mul div ltb parts zt2 bb hist) 0 * norm2sq bb = nth k hist 0.
+Proof using Fth Hparts.
+  try clear SPD; try clear mulA_sym; try clear Hsol; try clear Hxs; try clear xs; try clear Hb.
+  intros Hl Hz Hnz Hk. unfold KDefs.par_cg_reported, KDefs.par_cg_scale.
+  rewrite dN by exact Hl. rewrite Hz.
+  revert k Hk. induction hist as [|h hist IH]; intros k Hk; simpl in Hk; [lia|].
+  destruct k as [|k]; simpl; [field; exact Hnz|apply IH; lia].
+Qed.
+
 End SolverFacts.
 
 (* ---------------- extended values: norms and inner products of vectors with non-finite entries ---------------- *)
@@ -1152,15 +1161,13 @@ Section XFacts.
 Variable F : Type.
 Variables (zero : F) (add mul div : F -> F -> F).
 Variable eqb ltb : F -> F -> bool.
-Variable tiny : F -> bool.
 Notation xadd := (xadd F add).
 Notation xmul := (xmul F mul).
-Notation xtiny := (xtiny F tiny).
 Notation xinner := (xinner F zero add mul).
-Notation xnorm2sq := (xnorm2sq F zero add mul tiny).
+Notation xnorm2sq := (xnorm2sq F zero add mul).
 Notation xallreduce := (xallreduce F zero add).
 Notation xdinner := (xdinner F zero add mul).
-Notation xdnorm2sq := (xdnorm2sq F zero add mul tiny).
+Notation xdnorm2sq := (xdnorm2sq F zero add mul).
 
 Lemma xadd_nan_r a : xadd a NaNv = NaNv.
 Proof. destruct a; reflexivity. Qed.
@@ -1189,10 +1196,10 @@ Qed.
 Theorem xinner_nan u v : length u = length v -> In NaNv u \/ In NaNv v -> xinner u v = NaNv.
 Proof. intros Hl H. unfold KDefs.xinner. apply fold_xadd_in. apply map2_xmul_nan; assumption. Qed.
 
-Lemma fold_xnorm_nan l : fold_left (fun acc x => if xtiny x then acc else xadd acc (xmul x x)) l NaNv = NaNv.
-Proof. induction l as [|a l IH]; simpl; [reflexivity|]. destruct (xtiny a); exact IH. Qed.
+Lemma fold_xnorm_nan l : fold_left (fun acc x => xadd acc (xmul x x)) l NaNv = NaNv.
+Proof. induction l as [|a l IH]; simpl; [reflexivity|]. exact IH. Qed.
 
-(* the 2-norm (as fixed: `!(fabs(val) <= zero_tol)`) is non-finite whenever an entry is *)
+(* the 2-norm is non-finite whenever an entry is *)
 Theorem xnorm2sq_nan v : In NaNv v -> xnorm2sq v = NaNv.
 Proof.
   unfold KDefs.xnorm2sq. generalize (@Fin F zero) as a.
@@ -1206,10 +1213,10 @@ Proof.
   unfold KDefs.xinner, KDefs.inner. generalize zero as a.
   revert v; induction u as [|x u IH]; intros [|y v] a; simpl; try reflexivity. apply IH.
 Qed.
-Theorem xnorm2sq_fin v : xnorm2sq (map Fin v) = Fin (norm2sq F zero add mul tiny v).
+Theorem xnorm2sq_fin v : xnorm2sq (map Fin v) = Fin (norm2sq F zero add mul v).
 Proof.
   unfold KDefs.xnorm2sq, KDefs.norm2sq. generalize zero as a.
-  induction v as [|x v IH]; intros a; simpl; [reflexivity|]. destruct (tiny x); apply IH.
+  induction v as [|x v IH]; intros a; simpl; [reflexivity|]. apply IH.
 Qed.
 
 (* distributed: Allreduce of the ranks' local results *)
@@ -1244,7 +1251,7 @@ Proof.
   rewrite firstn_map, skipn_map, IH. reflexivity.
 Qed.
 
-Theorem xdnorm2sq_fin parts v : xdnorm2sq parts (map Fin v) = Fin (dnorm2sq F zero add mul tiny parts v).
+Theorem xdnorm2sq_fin parts v : xdnorm2sq parts (map Fin v) = Fin (dnorm2sq F zero add mul parts v).
 Proof.
   unfold KDefs.xdnorm2sq, KDefs.dnorm2sq, allreduce_sum. rewrite split_by_map.
   induction (split_by parts v) as [|blk l IH]; simpl; [reflexivity|].
@@ -1262,7 +1269,7 @@ Proof.
   - assert (Hl : length (firstn m u) = length (firstn m v)) by (rewrite !firstn_length; lia).
     assert (D : (In NaNv (firstn m u) \/ In NaNv (firstn m v)) \/ (In NaNv (skipn m u) \/ In NaNv (skipn m v))).
     { destruct H as [H|H]; [rewrite <- (firstn_skipn m u) in H|rewrite <- (firstn_skipn m v) in H];
-        apply in_app_or in H; tauto. }
+        apply in_app_or in H; destruct H as [H|H]; [left; left|right; left|left; right|right; right]; exact H. }
     destruct D as [D|D].
     + left. destruct (firstn m u) as [|x0 fu] eqn:E.
       * destruct (firstn m v); [destruct D; contradiction|discriminate].
